@@ -1,6 +1,7 @@
 (* C15 — Loading many runs in parallel equals loading them one by one.
    Only property theorems, each closed by `exact <lemma>` and followed by Print Assumptions. *)
 From SV Require Import Base.Prelude Model.MultiRun Proof.MultiRunProof.
+From SV Require Import Model.CtxRace Model.CtxRaceWitness Proof.CtxRaceProof Proof.CtxRaceWitnessProof.
 From Coq Require Import Sorting.Permutation.
 
 (* multi_run (strax/utils.py): for EVERY completion order / batching of the worker pool *)
@@ -18,3 +19,36 @@ Theorem C15_multi_run_order_independent :
                    In r ids /\ res r = None /\ prefix_of sub (isort ids)).
 Proof. exact multi_run_order_independent. Qed.
 Print Assumptions C15_multi_run_order_independent.
+
+(* The Context code shared by the workers (strax/context.py), as a labelled transition system.
+   FULL statement (refuted on the pinned tree, finding D7): whenever the workers' calls succeed one after
+   the other, they succeed under every interleaving and obtain the same plugins. *)
+Definition C15_full_ctx_race_free : Prop := ctx_race_free_stmt.
+
+(* two workers, two same-kind targets: a concrete interleaving crashes (witness wa1, by vm_compute) *)
+Theorem C15_ctx_race_refuted : ~ ctx_race_free_stmt.
+Proof. exact ctx_race_refuted. Qed.
+Print Assumptions C15_ctx_race_refuted.
+
+(* two workers, ONE target, cold plugin cache: a concrete interleaving crashes as well (witness wb1) *)
+Theorem C15_ctx_race_single_target_refuted :
+  exists sched, all_done (run_all wb1_cfg wb1_sh wb1_progs [] 400) = true /\
+                all_done (run_all wb1_cfg wb1_sh wb1_progs sched 400) = false.
+Proof. exact ctx_race_refuted_single_target. Qed.
+Print Assumptions C15_ctx_race_single_target_refuted.
+
+(* PARTIAL: if every worker's own sequential execution from the initial shared state executes no writing
+   statement and terminates normally (decidable: ro_check; true for single targets on a warm plugin cache,
+   Example wb_warm_readonly; checked on the real code by the harness), then EVERY interleaving of any
+   number of workers leaves the shared maps untouched, brings every worker to exactly the state its
+   sequential execution reaches (same statements, same plugins), and nobody crashes. *)
+Theorem C15_ctx_race_free_partial :
+  forall (c : cfgm) (sh : shared) (progs : list (list task)) (n : nat),
+  forallb (fun p => ro_check c sh (init_thread c sh p) n) progs = true ->
+  forall sched : list nat,
+    let fin := run_all c sh progs sched n in
+    s_sh fin = sh /\
+    s_ths fin = map (fun p => solo c sh (init_thread c sh p) n) progs /\
+    forallb th_done (s_ths fin) = true.
+Proof. exact ctx_race_free_partial. Qed.
+Print Assumptions C15_ctx_race_free_partial.
